@@ -129,7 +129,15 @@ def H_levels(ctx, cfg):
     except Exception as e:
         if type(e).__name__ in ("OutsideModel", "Inconclusive"):
             raise
-        # "fails with an error instead of writing wrong data": the levels completed so far are still checked
+        # "fails with an error instead of writing wrong data": the levels completed so far are still checked.
+        # The refusal the statement allows is the tool's own verdict that the pair of scales cannot be processed
+        # (ValueError of the chunk-size admission check, NotImplementedError for unsupported factors), given before any
+        # chunk of that level is written; an assertion, index or data-access error from inside the chunk loops is a crash
+        # that leaves the level partly unwritten
+        refusal = (isinstance(e, ValueError) and "Unsupported combination of chunk sizes" in str(e)) or isinstance(e, NotImplementedError)
+        if not refusal:
+            ctx.fail("pyramid-computation-crashed-instead-of-refusing-or-completing", detail=f"{type(e).__name__}: {e}"[:300], exc=repr(e)[:200])
+            return
         ctx.ok("failed-with-" + type(e).__name__)
         failed = True
     else:
@@ -384,7 +392,11 @@ def replay(cfg, cex):
             if cfg["layout"] == "sharded":
                 acc.close()
         except Exception as e:
-            return False, f"fails with an error ({type(e).__name__}: {e}), allowed"
+            refusal = (isinstance(e, ValueError) and "Unsupported combination of chunk sizes" in str(e)) or isinstance(e, NotImplementedError)
+            if refusal:
+                return False, f"refuses the pair of scales ({type(e).__name__}: {e}), allowed"
+            return True, (f"size {cfg['size']}, resolution {cfg['res']}, target chunk {cfg['tcs']} (chunks "
+                          f"{[s_['chunk_sizes'][0] for s_ in info['scales']]}): the pyramid computation crashed with {type(e).__name__}: {e}")
         acc2 = acc_mod.get_accessor_for_url(td, {k: v for k, v in options.items() if k != "sharding"})
         r = pio.get_IO_for_existing_dataset(acc2)
         prev = lvl
